@@ -401,3 +401,26 @@ func dedupEmptyKey(c *Check, a *Anchors) {
 	}
 	c.Decide(len(bad) == 0 && n > 0, "run-mode-switch", "empty-key-executes-directly@"+d.name, a.Dedup.Decl.Pos(), fmt.Sprintf("the empty key executes directly on %d path(s)", n), "run: always (empty key) does not bypass the execution table: "+firstN(bad, 2))
 }
+
+// tableEntriesPermanent (C06): a registered execution is never removed or replaced within an invocation.
+func tableEntriesPermanent(c *Check, a *Anchors) {
+	c.Rule("table-entries-permanent", "an entry of Executor.executionHashes is never deleted and is stored only by the registering path of the dedup function: a forgotten entry lets a later reference execute the task a second time and hides the first execution's outcome")
+	n := 0
+	for _, fb := range c.P.BodiesIn(PkgTask) {
+		info := fb.Info()
+		inspectBody(fb.Body, func(nd ast.Node) bool {
+			call, ok := nd.(*ast.CallExpr)
+			if !ok {
+				return true
+			}
+			if (isBuiltin(info, call, "delete") || isBuiltin(info, call, "clear")) && len(call.Args) >= 1 && fieldSel(info, call.Args[0], PkgTask, "Executor", "executionHashes") {
+				n++
+				c.Bad("table-entries-permanent", "delete@"+fnDisplay(fb.Root()), call.Pos(), "an entry of the execution table is removed during the invocation: a later reference to the deduplicated task runs it again (commands start twice) and does not observe the first outcome")
+			}
+			return true
+		})
+	}
+	if n == 0 {
+		c.OK("table-entries-permanent", "package task", a.Dedup.Decl.Pos(), "no delete/clear on Executor.executionHashes")
+	}
+}
